@@ -34,6 +34,7 @@ type C05Session struct {
 	Shared   bool      `json:"shared"`  // all senders hand the SAME message object to Send (as the repository's own tests do)
 	Senders  [][]int64 `json:"senders"` // per sender goroutine: delay (ns) before each of its sends
 	Peer     []PeerOp  `json:"peer"`
+	ResetIncoming bool `json:"reset_incoming,omitempty"` // before this (second or later) session the application resets the INCOMING side of the shared counter store; the outgoing numbering continues
 	GapAfter int64     `json:"gap_after"` // virtual ns between the end of this connection and the next session (-1: the full settling time)
 }
 
@@ -87,6 +88,7 @@ func genC05(t *rapid.T) *C05Case {
 		sort.SliceStable(ss.Peer, func(i, j int) bool { return ss.Peer[i].At < ss.Peer[j].At })
 		ss.GapAfter = rapid.SampledFrom([]int64{-1, 0, 1e6, int64(c.N) * 5e8}).Draw(t, "gapAfter")
 		ss.Shared = rapid.IntRange(0, 5).Draw(t, "shared") == 0
+		ss.ResetIncoming = s > 0 && rapid.IntRange(0, 2).Draw(t, "resetIncoming") == 0
 		c.Sessions = append(c.Sessions, ss)
 	}
 	return c
@@ -145,6 +147,9 @@ func checkC05(c *C05Case, rec *evid.Rec) (vs []pbt.Violation) {
 			ss := &c.Sessions[si]
 			var o sessObs
 			o.startAt, _ = inner.GetCurrSeqNum(fix.StorageID{Side: fix.Outgoing})
+			if ss.ResetIncoming && si > 0 {
+				_ = inner.ResetSeqNum(fix.StorageID{Side: fix.Incoming})
+			}
 			var conn *netsim.Conn
 			var ir *rig.InitiatorRig
 			inSeq := 1
@@ -421,6 +426,12 @@ func checkC05(c *C05Case, rec *evid.Rec) (vs []pbt.Violation) {
 	rec.Hist("role:" + c.Cfg.Role)
 	if c.Cfg.Location != "" && c.Cfg.Location != "UTC" {
 		rec.Hist("location-not-utc")
+	}
+	for _, ss := range c.Sessions {
+		if ss.ResetIncoming {
+			rec.Hist("incoming-side-reset-between-sessions")
+			break
+		}
 	}
 	rec.Hist(fmt.Sprintf("sessions=%d", len(c.Sessions)))
 	if c.BadLogonFirst {
